@@ -470,7 +470,7 @@ fn forest_unit(n: usize) -> Unit {
                 c.patches = crate::hv::sem::Small::new();
                 ctx.st.violations_total += 1;
                 if ctx.st.violations.len() < crate::hv::e1::MAX_VIOLATIONS_KEPT {
-                    ctx.st.violations.push(crate::hv::e1::Violation { unit: ctx.unit.clone(), what: "generated program did not reach its end within the action bound".into(), case: c.to_json(), expected: json!(null), actual: json!(null) });
+                    ctx.st.violations.push(crate::hv::e1::Violation { engine: "e1".into(), unit: ctx.unit.clone(), what: "generated program did not reach its end within the action bound".into(), case: c.to_json(), expected: json!(null), actual: json!(null) });
                 }
             }
             let _ = ccr0;
